@@ -136,3 +136,8 @@ def shard(ctx):
     fleet.run_fleet_share(ctx, 'roundtrip', ctx.n(2400, 80000))
     if ctx.index % 4 == 0:
         py2.run_py2(ctx, 'roundtrip', ctx.n(1200, 30000) * 4)
+
+
+def parent_post(tier, seed, merged):
+    # exhaustive refers to family 1 (small scope) only; the other families are sampled
+    return {'exhaustive': tier == 'thorough', 'exhaustive_scope': 'family 1 (small scope)'}
